@@ -17,6 +17,7 @@ struct SmartObject_
 {
 	AtomicCount rc;
 	SmartObject_() {}
+	SmartObject_(const SmartObject_&) {} // a copy is a new object with its own count
 	virtual ~SmartObject_() {}
 	virtual SmartObject_* clone() const { return new SmartObject_(*this); }
 };
